@@ -334,7 +334,9 @@ func checkC14(c c14Case, ctx *vCtx) *vFailure {
 		return vFailf("csv log of the printed log has %d rows, the original %d", len(r2), len(r1))
 	}
 	for i := range r1 {
-		if r1[i][0] != r2[i][0] || r1[i][1] != r2[i][1] || vRatAbs(vRatSub(vNum(r1[i][2]), vNum(r2[i][2]))).Cmp(big.NewRat(51, 10000)) > 0 {
+		// rounding to two decimals (0.005) + the two three-decimal prints (0.001) + float64 resolution at this magnitude
+		tol := vRatAdd(big.NewRat(61, 10000), vRatMul(big.NewRat(1, 100000000000000), vRatAbs(vNum(r1[i][2]))))
+		if r1[i][0] != r2[i][0] || r1[i][1] != r2[i][1] || vRatAbs(vRatSub(vNum(r1[i][2]), vNum(r2[i][2]))).Cmp(tol) > 0 {
 			return vFailf("csv log row %d: original %q, after print %q", i, r1[i], r2[i])
 		}
 	}
